@@ -12,6 +12,8 @@ computed from the final records of its components' bases appended.
 namespace Ufo2ft
 open List
 
+variable {bnd : Comp → Option (Q × Q)}
+
 /-! ### strings: prefixes and numbered names -/
 
 theorem startsWith_append (a b : String) : (a ++ b).startsWith a = true := by
@@ -445,12 +447,13 @@ def skipCond (marks : List String) (name : String) (g : Glyph) : Bool :=
 
 /-- inversion of one call of `_propagate_glyph_anchors` -/
 theorem propagate_inv (fuel : Nat) (marks : List String) (st : FState) (name : String) (st' : FState)
-    (h : propagate (fuel + 1) marks st name = .ok st') :
+    (h : propagate (fuel + 1) bnd marks st name = .ok st') :
     (st.processed.contains name = true ∧ st' = st) ∨
     (st.processed.contains name = false ∧ ∃ g, st.gs.get? name = some g ∧
       ((skipCond marks name g = true ∧ st' = { st with processed := st.processed ++ [name] }) ∨
-       (skipCond marks name g = false ∧ ∃ st1 sp,
-          propagateComps fuel marks { st with processed := st.processed ++ [name] } g.comps ⟨[], [], []⟩ = .ok (st1, sp) ∧
+       (skipCond marks name g = false ∧ ∃ st1 sp0 sp,
+          propagateComps fuel bnd marks { st with processed := st.processed ++ [name] } g.comps ⟨[], [], []⟩ = .ok (st1, sp0) ∧
+          promoteSplit bnd name sp0 = .ok sp ∧
           ((toAddOf g sp = [] ∧ st' = st1) ∨
            (toAddOf g sp ≠ [] ∧ st' = { st1 with gs := st1.gs.set name { g with anchors := g.anchors ++ newAnchors g sp },
                                                  modified := addMod st1.modified name }))))) := by
@@ -472,16 +475,18 @@ theorem propagate_inv (fuel : Nat) (marks : List String) (st : FState) (name : S
         exact Or.inl ⟨hskip, (Except.ok.inj h).symm⟩
       · rw [if_neg hskip] at h
         refine Or.inr ⟨by simpa [skipCond] using hskip, ?_⟩
-        cases hc : propagateComps fuel marks { st with processed := st.processed ++ [name] } g.comps ⟨[], [], []⟩ with
+        cases hc : propagateComps fuel bnd marks { st with processed := st.processed ++ [name] } g.comps ⟨[], [], []⟩ with
         | error e => rw [hc] at h; cases h
         | ok res =>
-          obtain ⟨st1, sp⟩ := res
+          obtain ⟨st1, sp0⟩ := res
           rw [hc] at h
           dsimp only at h
-          refine ⟨st1, sp, rfl, ?_⟩
-          by_cases hl : (!sp.markComps.isEmpty && sp.baseComps.isEmpty && isLigatureMark name) = true
-          · rw [if_pos hl] at h; cases h
-          · rw [if_neg hl] at h
+          cases hpm : promoteSplit bnd name sp0 with
+          | error e => rw [hpm] at h; cases h
+          | ok sp =>
+            rw [hpm] at h
+            dsimp only at h
+            refine ⟨st1, sp0, sp, rfl, hpm, ?_⟩
             have h' := Except.ok.inj h
             by_cases he : toAddOf g sp = []
             · left
@@ -496,22 +501,22 @@ theorem propagate_inv (fuel : Nat) (marks : List String) (st : FState) (name : S
               exact if_neg he'
 
 theorem propagateComps_nil (fuel : Nat) (marks : List String) (st : FState) (sp : PSplit) :
-    propagateComps fuel marks st [] sp = .ok (st, sp) := by
+    propagateComps fuel bnd marks st [] sp = .ok (st, sp) := by
   unfold propagateComps; rfl
 
 /-- inversion of one round of the component loop -/
 theorem propagateComps_inv (fuel : Nat) (marks : List String) (st : FState) (k : Comp) (ks : List Comp) (sp : PSplit)
-    (r : FState × PSplit) (h : propagateComps fuel marks st (k :: ks) sp = .ok r) :
-    (st.gs.get? k.base = none ∧ propagateComps fuel marks st ks sp = .ok r) ∨
-    (∃ b0 st1 b, st.gs.get? k.base = some b0 ∧ propagate fuel marks st k.base = .ok st1 ∧
-      st1.gs.get? k.base = some b ∧ propagateComps fuel marks st1 ks (splitStep sp k b) = .ok r) := by
+    (r : FState × PSplit) (h : propagateComps fuel bnd marks st (k :: ks) sp = .ok r) :
+    (st.gs.get? k.base = none ∧ propagateComps fuel bnd marks st ks sp = .ok r) ∨
+    (∃ b0 st1 b, st.gs.get? k.base = some b0 ∧ propagate fuel bnd marks st k.base = .ok st1 ∧
+      st1.gs.get? k.base = some b ∧ propagateComps fuel bnd marks st1 ks (splitStep sp k b) = .ok r) := by
   unfold propagateComps at h
   cases hb : st.gs.get? k.base with
   | none => rw [hb] at h; exact Or.inl ⟨rfl, h⟩
   | some b0 =>
     rw [hb] at h
     dsimp only at h
-    cases hp : propagate fuel marks st k.base with
+    cases hp : propagate fuel bnd marks st k.base with
     | error e => rw [hp] at h; cases h
     | ok st1 =>
       rw [hp] at h
@@ -527,6 +532,80 @@ theorem propagateComps_inv (fuel : Nat) (marks : List String) (st : FState) (k :
         · rw [if_pos hm] at h ⊢; exact h
         · rw [if_neg hm] at h ⊢; exact h
 
+
+/-! ### the mark-ligature promotion -/
+
+/-- the split the anchors are computed from: after the promotion step (the split itself where that raises) -/
+def promoteD (bnd : Comp → Option (Q × Q)) (name : String) (sp : PSplit) : PSplit :=
+  match promoteSplit bnd name sp with
+  | .ok sp' => sp'
+  | .error _ => sp
+
+theorem promoteD_of_ok {name : String} {sp0 sp : PSplit} (h : promoteSplit bnd name sp0 = .ok sp) :
+    promoteD bnd name sp0 = sp := by
+  unfold promoteD; rw [h]
+
+/-- what `promoteD` can be: the split itself, or one mark component (index `i`) moved to the (empty) base list -/
+theorem promoteD_cases (name : String) (sp0 : PSplit) :
+    promoteD bnd name sp0 = sp0 ∨
+    ∃ i k b, sp0.markComps[i]? = some (k, b) ∧ sp0.baseComps = [] ∧
+      promoteD bnd name sp0 = ⟨[(k, b)], sp0.markComps.eraseIdx i, b.anchors.foldl (fun l a => addMod l a.name) sp0.names⟩ := by
+  unfold promoteD promoteSplit
+  by_cases hc : (!sp0.markComps.isEmpty && sp0.baseComps.isEmpty && isLigatureMark name) = true
+  · rw [if_pos hc]
+    cases hk : distKeys bnd sp0.markComps with
+    | none => left; rfl
+    | some keys =>
+      dsimp only
+      cases hf : firstMin keys with
+      | none => left; rfl
+      | some im =>
+        obtain ⟨i, m⟩ := im
+        dsimp only
+        cases hg : sp0.markComps[i]? with
+        | none => left; rfl
+        | some kb =>
+          obtain ⟨k, b⟩ := kb
+          right
+          have hb : sp0.baseComps = [] := by
+            simp only [Bool.and_eq_true] at hc
+            exact List.isEmpty_iff.mp hc.1.2
+          exact ⟨i, k, b, hg, hb, by dsimp only; rw [hb]; rfl⟩
+  · rw [if_neg hc]; left; rfl
+
+theorem promoteD_mem (name : String) (sp0 : PSplit) :
+    ∀ kb ∈ (promoteD bnd name sp0).baseComps ++ (promoteD bnd name sp0).markComps, kb ∈ sp0.baseComps ++ sp0.markComps := by
+  intro kb h
+  rcases promoteD_cases (bnd := bnd) name sp0 with e | ⟨i, k, b, hi, hb, e⟩
+  · rw [e] at h; exact h
+  · rw [e] at h
+    dsimp only at h
+    rcases mem_append.mp h with h | h
+    · rw [mem_singleton] at h
+      rw [h]; exact mem_append_right _ (List.mem_of_getElem? hi)
+    · exact mem_append_right _ ((List.eraseIdx_sublist _ _).subset h)
+
+theorem promoteD_mono (name : String) (sp0 : PSplit) :
+    (∀ kb ∈ sp0.baseComps, kb ∈ (promoteD bnd name sp0).baseComps) ∧ (∀ x ∈ sp0.names, x ∈ (promoteD bnd name sp0).names) := by
+  rcases promoteD_cases (bnd := bnd) name sp0 with e | ⟨i, k, b, hi, hb, e⟩
+  · rw [e]; exact ⟨fun _ h => h, fun _ h => h⟩
+  · rw [e]
+    dsimp only
+    refine ⟨?_, fun x h => ?_⟩
+    · intro kb h; rw [hb] at h; cases h
+    have key : ∀ (anchors : List Anchor) (l : List String), x ∈ l → x ∈ anchors.foldl (fun l a => addMod l a.name) l := by
+      intro anchors
+      induction anchors with
+      | nil => intro l h; exact h
+      | cons a as ih =>
+        intro l h
+        rw [foldl_cons]
+        refine ih _ ?_
+        unfold addMod
+        split
+        · exact h
+        · exact mem_append_left _ h
+    exact key b.anchors sp0.names h
 
 /-! ### frame: a call only touches glyphs that were not yet in `processed` -/
 
@@ -614,12 +693,12 @@ theorem FrameRel.write (st0 st1 : FState) (name : String) (g g' : Glyph) (h01 : 
     · exact Or.inr (h ▸ hin)
 
 def FrameOne (fuel : Nat) : Prop :=
-  ∀ marks st name st', propagate fuel marks st name = .ok st' → FrameRel st st' ∧ name ∈ st'.processed
+  ∀ bnd marks st name st', propagate fuel bnd marks st name = .ok st' → FrameRel st st' ∧ name ∈ st'.processed
 def FrameMany (fuel : Nat) : Prop :=
-  ∀ marks st ks sp r, propagateComps fuel marks st ks sp = .ok r → FrameRel st r.1
+  ∀ bnd marks st ks sp r, propagateComps fuel bnd marks st ks sp = .ok r → FrameRel st r.1
 
 theorem frameMany_of_frameOne (fuel : Nat) (h1 : FrameOne fuel) : FrameMany fuel := by
-  intro marks st ks
+  intro bnd marks st ks
   induction ks generalizing st with
   | nil =>
     intro sp r h
@@ -629,16 +708,16 @@ theorem frameMany_of_frameOne (fuel : Nat) (h1 : FrameOne fuel) : FrameMany fuel
     intro sp r h
     rcases propagateComps_inv fuel marks st k ks sp r h with ⟨_, h⟩ | ⟨b0, st1, b, _, hp, _, h⟩
     · exact ih st sp r h
-    · exact (h1 marks st k.base st1 hp).1.trans (ih st1 _ r h)
+    · exact (h1 bnd marks st k.base st1 hp).1.trans (ih st1 _ r h)
 
 theorem frameOne_succ (fuel : Nat) (h2 : FrameMany fuel) : FrameOne (fuel + 1) := by
-  intro marks st name st' h
+  intro bnd marks st name st' h
   rcases propagate_inv fuel marks st name st' h with ⟨hpr, rfl⟩ | ⟨hpr, g, hg, hrest⟩
   · exact ⟨FrameRel.refl _, by simpa using hpr⟩
   · have hnot : name ∉ st.processed := by simpa using hpr
-    rcases hrest with ⟨_, rfl⟩ | ⟨_, st1, sp, hc, hrest⟩
+    rcases hrest with ⟨_, rfl⟩ | ⟨_, st1, sp0, sp, hc, _, hrest⟩
     · exact ⟨FrameRel.mark st name, by simp⟩
-    · have f1 : FrameRel { st with processed := st.processed ++ [name] } st1 := h2 marks _ g.comps _ _ hc
+    · have f1 : FrameRel { st with processed := st.processed ++ [name] } st1 := h2 bnd marks _ g.comps _ _ hc
       have f01 : FrameRel st st1 := (FrameRel.mark st name).trans f1
       have hin : name ∈ st1.processed := f1.proc name (by simp)
       rcases hrest with ⟨_, rfl⟩ | ⟨_, rfl⟩
@@ -650,7 +729,7 @@ theorem propagate_frame : ∀ fuel, FrameOne fuel ∧ FrameMany fuel := by
   intro fuel
   induction fuel with
   | zero =>
-    have h0 : FrameOne 0 := by intro marks st name st' h; simp only [propagate] at h; cases h
+    have h0 : FrameOne 0 := by intro bnd marks st name st' h; simp only [propagate] at h; cases h
     exact ⟨h0, frameMany_of_frameOne 0 h0⟩
   | succ n ih =>
     have h1 := frameOne_succ n ih.2
@@ -672,13 +751,13 @@ theorem splitComps_congr (gs gs' : GlyphSet) :
 
 /-- closed form of a processed glyph: the original with the anchors computed from the (current = final) records of its
     components' bases appended -/
-def finalGlyph (marks : List String) (gs : GlyphSet) (n : String) (g0 : Glyph) : Glyph :=
+def finalGlyph (bnd : Comp → Option (Q × Q)) (marks : List String) (gs : GlyphSet) (n : String) (g0 : Glyph) : Glyph :=
   if skipCond marks n g0 then g0
-  else { g0 with anchors := g0.anchors ++ newAnchors g0 (splitComps gs g0.comps ⟨[], [], []⟩) }
+  else { g0 with anchors := g0.anchors ++ newAnchors g0 (promoteD bnd n (splitComps gs g0.comps ⟨[], [], []⟩)) }
 
-theorem finalGlyph_congr (marks : List String) (gs gs' : GlyphSet) (n : String) (g0 : Glyph)
+theorem finalGlyph_congr (bnd : Comp → Option (Q × Q)) (marks : List String) (gs gs' : GlyphSet) (n : String) (g0 : Glyph)
     (h : skipCond marks n g0 = false → ∀ k ∈ g0.comps, gs'.get? k.base = gs.get? k.base) :
-    finalGlyph marks gs' n g0 = finalGlyph marks gs n g0 := by
+    finalGlyph bnd marks gs' n g0 = finalGlyph bnd marks gs n g0 := by
   unfold finalGlyph
   by_cases hs : skipCond marks n g0 = true
   · rw [if_pos hs, if_pos hs]
@@ -686,17 +765,18 @@ theorem finalGlyph_congr (marks : List String) (gs gs' : GlyphSet) (n : String) 
 
 /-- glyph `n` is finished: it has its closed form, and the bases it was computed from are finished too
     (`P` = the glyphs still on the recursion stack) -/
-def Done (marks : List String) (gs0 : GlyphSet) (P : String → Prop) (st : FState) (n : String) : Prop :=
-  ∃ g0, gs0.get? n = some g0 ∧ st.gs.get? n = some (finalGlyph marks st.gs n g0) ∧
-    (skipCond marks n g0 = false → ∀ k ∈ g0.comps, st.gs.get? k.base ≠ none → k.base ∈ st.processed ∧ ¬ P k.base)
+def Done (bnd : Comp → Option (Q × Q)) (marks : List String) (gs0 : GlyphSet) (P : String → Prop) (st : FState) (n : String) : Prop :=
+  ∃ g0, gs0.get? n = some g0 ∧ st.gs.get? n = some (finalGlyph bnd marks st.gs n g0) ∧
+    (skipCond marks n g0 = false → ∀ k ∈ g0.comps, st.gs.get? k.base ≠ none → k.base ∈ st.processed ∧ ¬ P k.base) ∧
+    (skipCond marks n g0 = false → ∃ sp, promoteSplit bnd n (splitComps st.gs g0.comps ⟨[], [], []⟩) = .ok sp)
 
 theorem Done.transfer {marks : List String} {gs0 : GlyphSet} {P P2 : String → Prop} {st st2 : FState} {n : String}
-    (hd : Done marks gs0 P st n) (hn : n ∈ st.processed) (hP : ¬ P n)
+    (hd : Done bnd marks gs0 P st n) (hn : n ∈ st.processed) (hP : ¬ P n)
     (hkeep : ∀ m ∈ st.processed, ¬ P m → st2.gs.get? m = st.gs.get? m)
     (hnone : ∀ m, st.gs.get? m = none → st2.gs.get? m = none)
     (hproc : ∀ m ∈ st.processed, m ∈ st2.processed)
-    (hP2 : ∀ m ∈ st.processed, ¬ P m → ¬ P2 m) : Done marks gs0 P2 st2 n := by
-  obtain ⟨g0, h0, hfin, hcl⟩ := hd
+    (hP2 : ∀ m ∈ st.processed, ¬ P m → ¬ P2 m) : Done bnd marks gs0 P2 st2 n := by
+  obtain ⟨g0, h0, hfin, hcl, hok⟩ := hd
   have hsame : skipCond marks n g0 = false → ∀ k ∈ g0.comps, st2.gs.get? k.base = st.gs.get? k.base := by
     intro hs k hk
     cases hb : st.gs.get? k.base with
@@ -704,22 +784,25 @@ theorem Done.transfer {marks : List String} {gs0 : GlyphSet} {P P2 : String → 
     | some b =>
       have := hcl hs k hk (by rw [hb]; simp)
       rw [hkeep k.base this.1 this.2, hb]
-  refine ⟨g0, h0, ?_, ?_⟩
-  · rw [hkeep n hn hP, hfin, finalGlyph_congr marks st.gs st2.gs n g0 hsame]
+  refine ⟨g0, h0, ?_, ?_, ?_⟩
+  · rw [hkeep n hn hP, hfin, finalGlyph_congr bnd marks st.gs st2.gs n g0 hsame]
   · intro hs k hk hne
     have hne' : st.gs.get? k.base ≠ none := by rw [← hsame hs k hk]; exact hne
     have := hcl hs k hk hne'
     exact ⟨hproc _ this.1, hP2 _ this.1 this.2⟩
+  · intro hs
+    rw [splitComps_congr st.gs st2.gs g0.comps _ (hsame hs)]
+    exact hok hs
 
-structure Inv (marks : List String) (gs0 : GlyphSet) (P : String → Prop) (st : FState) : Prop where
+structure Inv (bnd : Comp → Option (Q × Q)) (marks : List String) (gs0 : GlyphSet) (P : String → Prop) (st : FState) : Prop where
   fresh : ∀ n, (n ∉ st.processed ∨ P n) → st.gs.get? n = gs0.get? n
   pend : ∀ n, P n → n ∈ st.processed
-  done : ∀ n ∈ st.processed, ¬ P n → Done marks gs0 P st n
+  done : ∀ n ∈ st.processed, ¬ P n → Done bnd marks gs0 P st n
 
 /-- entering a glyph: it joins `processed` and the recursion stack -/
 theorem Inv.enter {marks : List String} {gs0 : GlyphSet} {P : String → Prop} {st : FState} (name : String)
-    (hi : Inv marks gs0 P st) (hnot : name ∉ st.processed) :
-    Inv marks gs0 (fun n => P n ∨ n = name) { st with processed := st.processed ++ [name] } := by
+    (hi : Inv bnd marks gs0 P st) (hnot : name ∉ st.processed) :
+    Inv bnd marks gs0 (fun n => P n ∨ n = name) { st with processed := st.processed ++ [name] } := by
   refine ⟨?_, ?_, ?_⟩
   · intro n hn
     apply hi.fresh
@@ -747,14 +830,15 @@ theorem Inv.enter {marks : List String} {gs0 : GlyphSet} {P : String → Prop} {
 
 /-- leaving a glyph: its record becomes its closed form and it leaves the recursion stack -/
 theorem Inv.leave {marks : List String} {gs0 : GlyphSet} {P : String → Prop} {st1 st' : FState} (name : String) (g : Glyph)
-    (hi : Inv marks gs0 (fun n => P n ∨ n = name) st1) (hP : ¬ P name)
+    (hi : Inv bnd marks gs0 (fun n => P n ∨ n = name) st1) (hP : ¬ P name)
     (hg1 : st1.gs.get? name = some g)
     (hcl : skipCond marks name g = false →
       ∀ k ∈ g.comps, st1.gs.get? k.base ≠ none → k.base ∈ st1.processed ∧ ¬ (P k.base ∨ k.base = name))
     (hself : ∀ k ∈ g.comps, k.base ≠ name)
+    (hok : skipCond marks name g = false → ∃ sp, promoteSplit bnd name (splitComps st1.gs g.comps ⟨[], [], []⟩) = .ok sp)
     (hproc : st'.processed = st1.processed)
-    (hget : ∀ m, st'.gs.get? m = if m = name then some (finalGlyph marks st1.gs name g) else st1.gs.get? m) :
-    Inv marks gs0 P st' := by
+    (hget : ∀ m, st'.gs.get? m = if m = name then some (finalGlyph bnd marks st1.gs name g) else st1.gs.get? m) :
+    Inv bnd marks gs0 P st' := by
   have hin : name ∈ st1.processed := hi.pend name (Or.inr rfl)
   have hg0 : gs0.get? name = some g := by rw [← hi.fresh name (Or.inr (Or.inr rfl))]; exact hg1
   have hkeep : ∀ m, m ≠ name → st'.gs.get? m = st1.gs.get? m := fun m hm => by rw [hget m, if_neg hm]
@@ -778,16 +862,19 @@ theorem Inv.leave {marks : List String} {gs0 : GlyphSet} {P : String → Prop} {
     rw [hproc] at hn
     by_cases hne : n = name
     · subst hne
-      refine ⟨g, hg0, ?_, ?_⟩
+      refine ⟨g, hg0, ?_, ?_, ?_⟩
       · rw [hget n, if_pos rfl]
         congr 1
-        apply (finalGlyph_congr marks st1.gs st'.gs n g _).symm
+        apply (finalGlyph_congr bnd marks st1.gs st'.gs n g _).symm
         intro _ k hk
         exact hkeep _ (hself k hk)
       · intro hs k hk hne
         rw [hkeep _ (hself k hk)] at hne
         have := hcl hs k hk hne
         exact ⟨by rw [hproc]; exact this.1, fun h => this.2 (Or.inl h)⟩
+      · intro hs
+        rw [splitComps_congr st1.gs st'.gs g.comps _ (fun k hk => hkeep _ (hself k hk))]
+        exact hok hs
     · have hP' : ¬ (P n ∨ n = name) := fun h => h.elim hPn hne
       apply (hi.done n hn hP').transfer hn hP'
       · intro m _ hm
@@ -800,21 +887,21 @@ theorem Inv.leave {marks : List String} {gs0 : GlyphSet} {P : String → Prop} {
 theorem newAnchors_nil {g : Glyph} {sp : PSplit} (h : toAddOf g sp = []) : newAnchors g sp = [] := by
   unfold newAnchors; rw [h]; simp
 
-theorem finalGlyph_eq (marks : List String) (gs : GlyphSet) (n : String) (g : Glyph) (hs : skipCond marks n g = false) :
-    finalGlyph marks gs n g = { g with anchors := g.anchors ++ newAnchors g (splitComps gs g.comps ⟨[], [], []⟩) } := by
+theorem finalGlyph_eq (bnd : Comp → Option (Q × Q)) (marks : List String) (gs : GlyphSet) (n : String) (g : Glyph) (hs : skipCond marks n g = false) :
+    finalGlyph bnd marks gs n g = { g with anchors := g.anchors ++ newAnchors g (promoteD bnd n (splitComps gs g.comps ⟨[], [], []⟩)) } := by
   unfold finalGlyph; rw [if_neg (by rw [hs]; simp)]
 
 def InvOne (fuel : Nat) : Prop :=
-  ∀ marks gs0 rank P st name st', Ranked gs0 rank → Inv marks gs0 P st → (∀ p, P p → rank name < rank p) →
-    propagate fuel marks st name = .ok st' → Inv marks gs0 P st'
+  ∀ bnd marks gs0 rank P st name st', Ranked gs0 rank → Inv bnd marks gs0 P st → (∀ p, P p → rank name < rank p) →
+    propagate fuel bnd marks st name = .ok st' → Inv bnd marks gs0 P st'
 def InvMany (fuel : Nat) : Prop :=
-  ∀ marks gs0 rank P st ks sp r, Ranked gs0 rank → Inv marks gs0 P st → (∀ k ∈ ks, ∀ p, P p → rank k.base < rank p) →
-    propagateComps fuel marks st ks sp = .ok r →
-    Inv marks gs0 P r.1 ∧ r.2 = splitComps r.1.gs ks sp ∧
+  ∀ bnd marks gs0 rank P st ks sp r, Ranked gs0 rank → Inv bnd marks gs0 P st → (∀ k ∈ ks, ∀ p, P p → rank k.base < rank p) →
+    propagateComps fuel bnd marks st ks sp = .ok r →
+    Inv bnd marks gs0 P r.1 ∧ r.2 = splitComps r.1.gs ks sp ∧
     (∀ k ∈ ks, r.1.gs.get? k.base ≠ none → k.base ∈ r.1.processed ∧ ¬ P k.base)
 
 theorem invMany_of_invOne (fuel : Nat) (h1 : InvOne fuel) : InvMany fuel := by
-  intro marks gs0 rank P st ks
+  intro bnd marks gs0 rank P st ks
   induction ks generalizing st with
   | nil =>
     intro sp r hr hi _ h
@@ -826,17 +913,17 @@ theorem invMany_of_invOne (fuel : Nat) (h1 : InvOne fuel) : InvMany fuel := by
     have hrank' : ∀ k' ∈ ks, ∀ p, P p → rank k'.base < rank p := fun k' hk' => hrank k' (mem_cons_of_mem _ hk')
     rcases propagateComps_inv fuel marks st k ks sp r h with ⟨hb, h⟩ | ⟨b0, st1, b, _, hp, hb1, h⟩
     · obtain ⟨i1, i2, i3⟩ := ih st sp r hr hi hrank' h
-      have hnone : r.1.gs.get? k.base = none := ((propagate_frame fuel).2 marks st ks sp r h).none _ hb
+      have hnone : r.1.gs.get? k.base = none := ((propagate_frame fuel).2 bnd marks st ks sp r h).none _ hb
       refine ⟨i1, ?_, ?_⟩
       · unfold splitComps; rw [hnone]; exact i2
       · intro k' hk' hne
         rcases mem_cons.mp hk' with e | hk'
         · rw [e] at hne; exact absurd hnone hne
         · exact i3 k' hk' hne
-    · have hi1 : Inv marks gs0 P st1 := h1 marks gs0 rank P st k.base st1 hr hi (hrank k mem_cons_self) hp
+    · have hi1 : Inv bnd marks gs0 P st1 := h1 bnd marks gs0 rank P st k.base st1 hr hi (hrank k mem_cons_self) hp
       obtain ⟨i1, i2, i3⟩ := ih st1 _ r hr hi1 hrank' h
-      have hin1 : k.base ∈ st1.processed := ((propagate_frame fuel).1 marks st k.base st1 hp).2
-      have fr := (propagate_frame fuel).2 marks st1 ks _ r h
+      have hin1 : k.base ∈ st1.processed := ((propagate_frame fuel).1 bnd marks st k.base st1 hp).2
+      have fr := (propagate_frame fuel).2 bnd marks st1 ks _ r h
       have hb : r.1.gs.get? k.base = some b := by rw [fr.keep _ hin1]; exact hb1
       refine ⟨i1, ?_, ?_⟩
       · unfold splitComps; rw [hb]; exact i2
@@ -847,18 +934,19 @@ theorem invMany_of_invOne (fuel : Nat) (h1 : InvOne fuel) : InvMany fuel := by
         · exact i3 k' hk' hne
 
 theorem invOne_succ (fuel : Nat) (h2 : InvMany fuel) : InvOne (fuel + 1) := by
-  intro marks gs0 rank P st name st' hr hi hrank h
+  intro bnd marks gs0 rank P st name st' hr hi hrank h
   rcases propagate_inv fuel marks st name st' h with ⟨_, rfl⟩ | ⟨hpr, g, hg, hrest⟩
   · exact hi
   · have hnot : name ∉ st.processed := by simpa using hpr
     have hP : ¬ P name := fun hP => Nat.lt_irrefl _ (hrank _ hP)
     have hg0 : gs0.get? name = some g := by rw [← hi.fresh name (Or.inl hnot)]; exact hg
     have hi' := hi.enter name hnot
-    rcases hrest with ⟨hs, rfl⟩ | ⟨hs, st1, sp, hc, hrest⟩
+    rcases hrest with ⟨hs, rfl⟩ | ⟨hs, st1, sp0, sp, hc, hpm, hrest⟩
     · -- nothing to do for this glyph: it is its own closed form
       have hself : ∀ k ∈ g.comps, k.base ≠ name := fun k hk e => by
         have := hr name g hg0 k hk; rw [e] at this; exact Nat.lt_irrefl _ this
-      apply Inv.leave name g hi' hP hg (fun hs' => by rw [hs] at hs'; cases hs') hself rfl (fun m => ?_)
+      apply Inv.leave name g hi' hP hg (fun hs' => by rw [hs] at hs'; cases hs') hself
+        (fun hs' => by rw [hs] at hs'; cases hs') rfl (fun m => ?_)
       by_cases e : m = name
       · rw [if_pos e, e]; unfold finalGlyph; rw [if_pos hs]; exact hg
       · rw [if_neg e]
@@ -870,20 +958,20 @@ theorem invOne_succ (fuel : Nat) (h2 : InvMany fuel) : InvOne (fuel + 1) := by
         rcases hp with hp | hp
         · exact Nat.lt_trans hlt (hrank p hp)
         · rw [hp]; exact hlt
-      obtain ⟨i1, i2, i3⟩ := h2 marks gs0 rank _ _ g.comps _ (st1, sp) hr hi' hrank' hc
-      have fr := (propagate_frame fuel).2 marks _ g.comps _ _ hc
+      obtain ⟨i1, i2, i3⟩ := h2 bnd marks gs0 rank _ _ g.comps _ (st1, sp0) hr hi' hrank' hc
+      have fr := (propagate_frame fuel).2 bnd marks _ g.comps _ _ hc
       have hg1 : st1.gs.get? name = some g := by rw [fr.keep name (by simp)]; exact hg
       dsimp only at i1 i2 i3
       have key : ∀ st2 : FState, st2.processed = st1.processed →
-          (∀ m, st2.gs.get? m = if m = name then some (finalGlyph marks st1.gs name g) else st1.gs.get? m) →
-          Inv marks gs0 P st2 :=
-        fun st2 hp hgm => Inv.leave name g i1 hP hg1 (fun _ => i3) hself hp hgm
+          (∀ m, st2.gs.get? m = if m = name then some (finalGlyph bnd marks st1.gs name g) else st1.gs.get? m) →
+          Inv bnd marks gs0 P st2 :=
+        fun st2 hp hgm => Inv.leave name g i1 hP hg1 (fun _ => i3) hself (fun _ => ⟨sp, by rw [← i2]; exact hpm⟩) hp hgm
       rcases hrest with ⟨he, hst⟩ | ⟨he, hst⟩
       · rw [hst]
         apply key st1 rfl
         intro m
         by_cases e : m = name
-        · rw [if_pos e, e, finalGlyph_eq marks _ _ _ hs, ← i2, newAnchors_nil he, hg1]
+        · rw [if_pos e, e, finalGlyph_eq bnd marks _ _ _ hs, ← i2, promoteD_of_ok hpm, newAnchors_nil he, hg1]
           simp
         · rw [if_neg e]
       · rw [hst]
@@ -891,13 +979,13 @@ theorem invOne_succ (fuel : Nat) (h2 : InvMany fuel) : InvOne (fuel + 1) := by
         · rfl
         intro m
         show (st1.gs.set name _).get? m = _
-        rw [get?_set st1.gs name m g _ hg1, finalGlyph_eq marks _ _ _ hs, ← i2]
+        rw [get?_set st1.gs name m g _ hg1, finalGlyph_eq bnd marks _ _ _ hs, ← i2, promoteD_of_ok hpm]
 
 theorem propagate_inv_all : ∀ fuel, InvOne fuel ∧ InvMany fuel := by
   intro fuel
   induction fuel with
   | zero =>
-    have h0 : InvOne 0 := by intro marks gs0 rank P st name st' _ _ _ h; simp only [propagate] at h; cases h
+    have h0 : InvOne 0 := by intro bnd marks gs0 rank P st name st' _ _ _ h; simp only [propagate] at h; cases h
     exact ⟨h0, invMany_of_invOne 0 h0⟩
   | succ n ih =>
     have h1 := invOne_succ n ih.2
@@ -1042,22 +1130,33 @@ theorem splitComps_covered (gs : GlyphSet) : ∀ (ks : List Comp) (sp : PSplit),
 
 theorem covered_empty : NamesCovered ⟨[], [], []⟩ := by intro an h; cases h
 
+theorem promoteD_covered (name : String) (sp0 : PSplit) (h : NamesCovered sp0) : NamesCovered (promoteD bnd name sp0) := by
+  rcases promoteD_cases (bnd := bnd) name sp0 with e | ⟨i, k, b, hi, hb, e⟩
+  · rw [e]; exact h
+  · rw [e]
+    intro an han
+    dsimp only at han ⊢
+    rcases (mem_foldl_addMod b.anchors sp0.names).2.2 an han with h' | ⟨a, ha, e'⟩
+    · obtain ⟨kb, hkb, _⟩ := h an h'
+      rw [hb] at hkb; cases hkb
+    · exact ⟨(k, b), by simp, a, ha, e'⟩
+
 
 /-! ### the traversal of `BaseFilter.__call__` -/
 
-theorem finalGlyph_fields (marks : List String) (gs : GlyphSet) (n : String) (g0 : Glyph) :
-    (finalGlyph marks gs n g0).name = g0.name ∧ (finalGlyph marks gs n g0).comps = g0.comps ∧
-    (finalGlyph marks gs n g0).contours = g0.contours ∧ (finalGlyph marks gs n g0).width = g0.width ∧
-    (finalGlyph marks gs n g0).height = g0.height := by
+theorem finalGlyph_fields (bnd : Comp → Option (Q × Q)) (marks : List String) (gs : GlyphSet) (n : String) (g0 : Glyph) :
+    (finalGlyph bnd marks gs n g0).name = g0.name ∧ (finalGlyph bnd marks gs n g0).comps = g0.comps ∧
+    (finalGlyph bnd marks gs n g0).contours = g0.contours ∧ (finalGlyph bnd marks gs n g0).width = g0.width ∧
+    (finalGlyph bnd marks gs n g0).height = g0.height := by
   unfold finalGlyph
   split <;> exact ⟨rfl, rfl, rfl, rfl, rfl⟩
 
 abbrev NoP : String → Prop := fun _ => False
 
 /-- under the invariant every current record is the original or its closed form -/
-theorem Inv.cur {marks : List String} {gs0 : GlyphSet} {st : FState} (hi : Inv marks gs0 NoP st) (n : String) (g : Glyph)
+theorem Inv.cur {marks : List String} {gs0 : GlyphSet} {st : FState} (hi : Inv bnd marks gs0 NoP st) (n : String) (g : Glyph)
     (hg : st.gs.get? n = some g) :
-    ∃ g0, gs0.get? n = some g0 ∧ (g = g0 ∨ (n ∈ st.processed ∧ g = finalGlyph marks st.gs n g0)) := by
+    ∃ g0, gs0.get? n = some g0 ∧ (g = g0 ∨ (n ∈ st.processed ∧ g = finalGlyph bnd marks st.gs n g0)) := by
   by_cases hn : n ∈ st.processed
   · obtain ⟨g0, h0, hf, _⟩ := hi.done n hn (fun h => h)
     rw [hg] at hf
@@ -1066,12 +1165,12 @@ theorem Inv.cur {marks : List String} {gs0 : GlyphSet} {st : FState} (hi : Inv m
     rw [hg] at this
     exact ⟨g, this.symm, Or.inl rfl⟩
 
-theorem Inv.init (marks : List String) (gs : GlyphSet) : Inv marks gs NoP ⟨gs, [], []⟩ :=
+theorem Inv.init (marks : List String) (gs : GlyphSet) : Inv bnd marks gs NoP ⟨gs, [], []⟩ :=
   ⟨fun _ _ => rfl, fun _ h => h.elim, fun n h => by cases h⟩
 
 theorem propagateStep_spec (marks : List String) (gs0 : GlyphSet) (rank : String → Nat) (hr : Ranked gs0 rank)
-    (st st1 : FState) (g : Glyph) (r : Bool) (hs : propagateStep marks st g = .ok (st1, r)) (hi : Inv marks gs0 NoP st) :
-    Inv marks gs0 NoP st1 ∧ FrameRel st st1 ∧ (g.comps ≠ [] → g.name ∈ st1.processed) ∧ (r = true → g.comps ≠ []) := by
+    (st st1 : FState) (g : Glyph) (r : Bool) (hs : propagateStep bnd marks st g = .ok (st1, r)) (hi : Inv bnd marks gs0 NoP st) :
+    Inv bnd marks gs0 NoP st1 ∧ FrameRel st st1 ∧ (g.comps ≠ [] → g.name ∈ st1.processed) ∧ (r = true → g.comps ≠ []) := by
   unfold propagateStep at hs
   by_cases he : g.comps.isEmpty = true
   · rw [if_pos he] at hs
@@ -1079,21 +1178,21 @@ theorem propagateStep_spec (marks : List String) (gs0 : GlyphSet) (rank : String
     rw [← this.1, ← this.2]
     exact ⟨hi, FrameRel.refl _, fun h => absurd (by simpa using he) h, fun h => by cases h⟩
   · rw [if_neg he] at hs
-    cases hp : propagate (st.gs.length + 1) marks st g.name with
+    cases hp : propagate (st.gs.length + 1) bnd marks st g.name with
     | error e => rw [hp] at hs; cases hs
     | ok st2 =>
       rw [hp] at hs
       have := Prod.mk.inj (Except.ok.inj hs)
       rw [← this.1]
-      have fr := (propagate_frame _).1 marks st g.name st2 hp
-      exact ⟨(propagate_inv_all _).1 marks gs0 rank NoP st g.name st2 hr hi (fun p hp => hp.elim) hp, fr.1,
+      have fr := (propagate_frame _).1 bnd marks st g.name st2 hp
+      exact ⟨(propagate_inv_all _).1 bnd marks gs0 rank NoP st g.name st2 hr hi (fun p hp => hp.elim) hp, fr.1,
         fun _ => fr.2, fun _ => by simpa using he⟩
 
 theorem propagateLoop_inv (marks : List String) (incl : String → Bool) (gs0 : GlyphSet) (rank : String → Nat)
     (hr : Ranked gs0 rank) (hn : Named gs0) :
-    ∀ (order : List String) (st st' : FState), filterLoop (propagateStep marks) incl order st = .ok st' →
-      Inv marks gs0 NoP st → (∀ m ∈ st.modified, m ∈ st.processed) →
-      Inv marks gs0 NoP st' ∧ FrameRel st st' ∧ (∀ m ∈ st'.modified, m ∈ st'.processed) ∧
+    ∀ (order : List String) (st st' : FState), filterLoop (propagateStep bnd marks) incl order st = .ok st' →
+      Inv bnd marks gs0 NoP st → (∀ m ∈ st.modified, m ∈ st.processed) →
+      Inv bnd marks gs0 NoP st' ∧ FrameRel st st' ∧ (∀ m ∈ st'.modified, m ∈ st'.processed) ∧
       (∀ n ∈ order, incl n = true → ∀ g0, gs0.get? n = some g0 → g0.comps ≠ [] → n ∈ st'.processed) := by
   intro order
   induction order with
@@ -1123,14 +1222,14 @@ theorem propagateLoop_inv (marks : List String) (incl : String → Bool) (gs0 : 
         have hname : g.name = n := by
           rcases hcur with e | ⟨_, e⟩
           · rw [e]; exact hn n g0 hg0
-          · rw [e, (finalGlyph_fields marks st.gs n g0).1]; exact hn n g0 hg0
+          · rw [e, (finalGlyph_fields bnd marks st.gs n g0).1]; exact hn n g0 hg0
         have hcomps : g.comps = g0.comps := by
           rcases hcur with e | ⟨_, e⟩
           · rw [e]
-          · rw [e, (finalGlyph_fields marks st.gs n g0).2.1]
+          · rw [e, (finalGlyph_fields bnd marks st.gs n g0).2.1]
         by_cases hi' : incl n = true
         · rw [if_pos hi'] at h
-          cases hs : propagateStep marks st g with
+          cases hs : propagateStep bnd marks st g with
           | error e => rw [hs] at h; cases h
           | ok res =>
             obtain ⟨st1, r⟩ := res
@@ -1146,8 +1245,8 @@ theorem propagateLoop_inv (marks : List String) (incl : String → Bool) (gs0 : 
             -- the state handed to the rest of the loop
             have key : ∀ st2 : FState, st2.gs = st1.gs → st2.processed = st1.processed →
                 (∀ m ∈ st2.modified, m ∈ st1.modified ∨ m = n ∧ r = true) →
-                filterLoop (propagateStep marks) incl ns st2 = .ok st' →
-                Inv marks gs0 NoP st' ∧ FrameRel st st' ∧ (∀ m ∈ st'.modified, m ∈ st'.processed) ∧
+                filterLoop (propagateStep bnd marks) incl ns st2 = .ok st' →
+                Inv bnd marks gs0 NoP st' ∧ FrameRel st st' ∧ (∀ m ∈ st'.modified, m ∈ st'.processed) ∧
                 (∀ n' ∈ n :: ns, incl n' = true → ∀ g0, gs0.get? n' = some g0 → g0.comps ≠ [] → n' ∈ st'.processed) := by
               intro st2 e1 e2 e3 h2
               have hmod2 : ∀ m ∈ st2.modified, m ∈ st2.processed := by
@@ -1156,7 +1255,7 @@ theorem propagateLoop_inv (marks : List String) (incl : String → Bool) (gs0 : 
                 rcases e3 m hm2 with h' | ⟨h', hr'⟩
                 · exact hmod1 m h'
                 · rw [h']; exact s3 (s4 hr')
-              have hi2 : Inv marks gs0 NoP st2 := by
+              have hi2 : Inv bnd marks gs0 NoP st2 := by
                 refine ⟨?_, fun _ h => h.elim, ?_⟩
                 · intro m hm; rw [e1]; exact s1.fresh m (by rw [← e2]; exact hm)
                 · intro m hm hP
@@ -1244,15 +1343,15 @@ theorem orderedGlyphs_mem (gs : GlyphSet) (order : List String) (h : orderedGlyp
 
 /-- everything the first run establishes -/
 theorem runFilter_propagate_inv (marks : List String) (incl : String → Bool) (gs : GlyphSet) (rank : String → Nat)
-    (st : FState) (hr : Ranked gs rank) (hn : Named gs) (h : runFilter (propagateStep marks) incl gs = .ok st) :
-    Inv marks gs NoP st ∧ st.gs.names = gs.names ∧
+    (st : FState) (hr : Ranked gs rank) (hn : Named gs) (h : runFilter (propagateStep bnd marks) incl gs = .ok st) :
+    Inv bnd marks gs NoP st ∧ st.gs.names = gs.names ∧
     (∀ n g0, gs.get? n = some g0 → incl n = true → g0.comps ≠ [] → n ∈ st.processed) := by
   unfold runFilter at h
   cases ho : orderedGlyphs gs with
   | error e => rw [ho] at h; cases h
   | ok order =>
     rw [ho] at h
-    obtain ⟨i1, i2, _, i4⟩ := propagateLoop_inv marks incl gs rank hr hn order ⟨gs, [], []⟩ st h (Inv.init marks gs)
+    obtain ⟨i1, i2, _, i4⟩ := propagateLoop_inv marks incl gs rank hr hn order ⟨gs, [], []⟩ st h (Inv.init (bnd := bnd) marks gs)
       (fun m hm => by cases hm)
     exact ⟨i1, i2.names, fun n g0 hg0 hincl hc =>
       i4 n (orderedGlyphs_mem gs order ho n (get?_mem_names gs n g0 hg0)) hincl g0 hg0 hc⟩
@@ -1263,7 +1362,7 @@ theorem runFilter_propagate_inv (marks : List String) (incl : String → Bool) (
     anchor lies at `k.t.apply (ba.x, ba.y)` for a component `k` of the glyph and an anchor `ba` (of matching, possibly
     numbered, name) of `k`'s base **in the final glyph set**; no appended anchor has the name of an anchor the glyph had. -/
 theorem propagate_placed (marks : List String) (incl : String → Bool) (gs : GlyphSet) (rank : String → Nat)
-    (st : FState) (hr : Ranked gs rank) (hn : Named gs) (h : runFilter (propagateStep marks) incl gs = .ok st)
+    (st : FState) (hr : Ranked gs rank) (hn : Named gs) (h : runFilter (propagateStep bnd marks) incl gs = .ok st)
     (n : String) (g g' : Glyph) (hg : gs.get? n = some g) (hg' : st.gs.get? n = some g') :
     ∃ added, g' = { g with anchors := g.anchors ++ added } ∧
       ∀ a ∈ added,
@@ -1284,13 +1383,13 @@ theorem propagate_placed (marks : List String) (incl : String → Bool) (gs : Gl
   · by_cases hs : skipCond marks n g = true
     · rw [e]; unfold finalGlyph; rw [if_pos hs]; exact hnil
     · have hs' : skipCond marks n g = false := by simpa using hs
-      rw [e, finalGlyph_eq marks st.gs n g hs']
+      rw [e, finalGlyph_eq bnd marks st.gs n g hs']
       refine ⟨_, rfl, ?_⟩
       intro a ha
       obtain ⟨en, hen, rfl⟩ := mem_newAnchors.mp ha
       obtain ⟨⟨kb, hkb, ba, hba, hnm, hpos⟩, ⟨an, hsk, hkey⟩⟩ := toAddOf_sound g _ en hen
       constructor
-      · rcases splitComps_mem st.gs g.comps _ kb hkb with h' | ⟨h1, h2⟩
+      · rcases splitComps_mem st.gs g.comps _ kb (promoteD_mem n _ kb hkb) with h' | ⟨h1, h2⟩
         · simp at h'
         · exact ⟨kb.1, h1, kb.2, h2, ba, hba, hnm, hpos⟩
       · intro o ho heq
@@ -1304,7 +1403,7 @@ theorem propagate_placed (marks : List String) (incl : String → Bool) (gs : Gl
     component base without `_` anchors, either an own anchor whose name starts with `ba.name` (then nothing is added) or a
     propagated anchor named `ba.name` / `ba.name_N`. -/
 theorem propagate_complete (marks : List String) (incl : String → Bool) (gs : GlyphSet) (rank : String → Nat)
-    (st : FState) (hr : Ranked gs rank) (hn : Named gs) (h : runFilter (propagateStep marks) incl gs = .ok st)
+    (st : FState) (hr : Ranked gs rank) (hn : Named gs) (h : runFilter (propagateStep bnd marks) incl gs = .ok st)
     (n : String) (g g' : Glyph) (hg : gs.get? n = some g) (hg' : st.gs.get? n = some g')
     (hincl : incl n = true) (hs : skipCond marks n g = false)
     (k : Comp) (hk : k ∈ g.comps) (b : Glyph) (hb : st.gs.get? k.base = some b)
@@ -1320,12 +1419,13 @@ theorem propagate_complete (marks : List String) (incl : String → Bool) (gs : 
   have := Option.some.inj hg0; subst this
   rw [hg'] at hfin
   have e := Option.some.inj hfin
-  rw [finalGlyph_eq marks st.gs n g hs] at e
+  rw [finalGlyph_eq bnd marks st.gs n g hs] at e
   by_cases hown : (g.anchors.any fun o => o.name.startsWith ba.name) = true
   · exact Or.inl hown
   · right
     obtain ⟨h1, h2⟩ := splitComps_base st.gs g.comps ⟨[], [], []⟩ k b hk hb hm
-    obtain ⟨en, hen, hkey⟩ := toAddOf_complete g _ ba.name k b ba h1 hba rfl (h2 ba hba) (by simpa using hown)
+    have pm := promoteD_mono (bnd := bnd) n (splitComps st.gs g.comps ⟨[], [], []⟩)
+    obtain ⟨en, hen, hkey⟩ := toAddOf_complete g _ ba.name k b ba (pm.1 _ h1) hba rfl (pm.2 _ (h2 ba hba)) (by simpa using hown)
     refine ⟨⟨en.1, en.2.1, en.2.2⟩, ?_, hkey.nameMatches⟩
     rw [e]
     exact mem_append_right _ (mem_newAnchors.mpr ⟨en, hen, rfl⟩)
@@ -1333,28 +1433,28 @@ theorem propagate_complete (marks : List String) (incl : String → Bool) (gs : 
 /-- **a glyph in `processed` is final**: no call of `_propagate_glyph_anchors` (whatever the fuel, marks, glyph) modifies the
     record of a glyph that was already in `processed` when the call started; `processed` only grows, the key list is kept. -/
 theorem processed_final (fuel : Nat) (marks : List String) (st st' : FState) (name : String)
-    (h : propagate fuel marks st name = .ok st') :
+    (h : propagate fuel bnd marks st name = .ok st') :
     (∀ n ∈ st.processed, st'.gs.get? n = st.gs.get? n) ∧ (∀ n ∈ st.processed, n ∈ st'.processed) ∧
     name ∈ st'.processed ∧ st'.gs.names = st.gs.names :=
-  have f := (propagate_frame fuel).1 marks st name st' h
+  have f := (propagate_frame fuel).1 bnd marks st name st' h
   ⟨f.1.keep, f.1.proc, f.2, f.1.names⟩
 
 /-! ### Target 3: idempotence -/
 
 /-- the glyphs in `S` are fixed points of the propagation step in `gs1`, and `S` is closed under "base of" -/
-def Settled (marks : List String) (gs1 : GlyphSet) (S : String → Prop) : Prop :=
+def Settled (bnd : Comp → Option (Q × Q)) (marks : List String) (gs1 : GlyphSet) (S : String → Prop) : Prop :=
   ∀ n, S n → ∀ g, gs1.get? n = some g → skipCond marks n g = false →
-    (∀ k ∈ g.comps, gs1.get? k.base ≠ none → S k.base) ∧ toAddOf g (splitComps gs1 g.comps ⟨[], [], []⟩) = []
+    (∀ k ∈ g.comps, gs1.get? k.base ≠ none → S k.base) ∧ toAddOf g (promoteD bnd n (splitComps gs1 g.comps ⟨[], [], []⟩)) = []
 
 def IdemOne (fuel : Nat) : Prop :=
-  ∀ marks gs1 S st name st', Settled marks gs1 S → S name → st.gs = gs1 →
-    propagate fuel marks st name = .ok st' → st'.gs = gs1 ∧ st'.modified = st.modified
+  ∀ bnd marks gs1 S st name st', Settled bnd marks gs1 S → S name → st.gs = gs1 →
+    propagate fuel bnd marks st name = .ok st' → st'.gs = gs1 ∧ st'.modified = st.modified
 def IdemMany (fuel : Nat) : Prop :=
-  ∀ marks gs1 S st ks sp r, Settled marks gs1 S → (∀ k ∈ ks, gs1.get? k.base ≠ none → S k.base) → st.gs = gs1 →
-    propagateComps fuel marks st ks sp = .ok r → r.1.gs = gs1 ∧ r.1.modified = st.modified ∧ r.2 = splitComps gs1 ks sp
+  ∀ bnd marks gs1 S st ks sp r, Settled bnd marks gs1 S → (∀ k ∈ ks, gs1.get? k.base ≠ none → S k.base) → st.gs = gs1 →
+    propagateComps fuel bnd marks st ks sp = .ok r → r.1.gs = gs1 ∧ r.1.modified = st.modified ∧ r.2 = splitComps gs1 ks sp
 
 theorem idemMany_of_idemOne (fuel : Nat) (h1 : IdemOne fuel) : IdemMany fuel := by
-  intro marks gs1 S st ks
+  intro bnd marks gs1 S st ks
   induction ks generalizing st with
   | nil =>
     intro sp r _ _ hgs h
@@ -1369,39 +1469,39 @@ theorem idemMany_of_idemOne (fuel : Nat) (h1 : IdemOne fuel) : IdemMany fuel := 
       refine ⟨i1, i2, ?_⟩
       unfold splitComps; rw [← hgs, hb]; rw [hgs]; exact i3
     · have hSk : S k.base := hks k mem_cons_self (by rw [← hgs, hb0]; simp)
-      obtain ⟨j1, j2⟩ := h1 marks gs1 S st k.base st1 hS hSk hgs hp
+      obtain ⟨j1, j2⟩ := h1 bnd marks gs1 S st k.base st1 hS hSk hgs hp
       obtain ⟨i1, i2, i3⟩ := ih st1 _ r hS hks' j1 h
       refine ⟨i1, i2.trans j2, ?_⟩
       unfold splitComps; rw [← j1, hb1]; rw [j1]; exact i3
 
 theorem idemOne_succ (fuel : Nat) (h2 : IdemMany fuel) : IdemOne (fuel + 1) := by
-  intro marks gs1 S st name st' hS hname hgs h
+  intro bnd marks gs1 S st name st' hS hname hgs h
   rcases propagate_inv fuel marks st name st' h with ⟨_, rfl⟩ | ⟨_, g, hg, hrest⟩
   · exact ⟨hgs, rfl⟩
-  · rcases hrest with ⟨_, rfl⟩ | ⟨hs, st1, sp, hc, hrest⟩
+  · rcases hrest with ⟨_, rfl⟩ | ⟨hs, st1, sp0, sp, hc, hpm, hrest⟩
     · exact ⟨hgs, rfl⟩
     · rw [hgs] at hg
       obtain ⟨s1, s2⟩ := hS name hname g hg hs
-      obtain ⟨i1, i2, i3⟩ := h2 marks gs1 S { st with processed := st.processed ++ [name] } g.comps _ (st1, sp) hS s1 hgs hc
+      obtain ⟨i1, i2, i3⟩ := h2 bnd marks gs1 S { st with processed := st.processed ++ [name] } g.comps _ (st1, sp0) hS s1 hgs hc
       dsimp only at i1 i2 i3
       rcases hrest with ⟨_, rfl⟩ | ⟨he, _⟩
       · exact ⟨i1, i2⟩
-      · rw [i3] at he; exact absurd s2 he
+      · rw [← i3, promoteD_of_ok hpm] at s2; exact absurd s2 he
 
 theorem propagate_idem : ∀ fuel, IdemOne fuel ∧ IdemMany fuel := by
   intro fuel
   induction fuel with
   | zero =>
-    have h0 : IdemOne 0 := by intro marks gs1 S st name st' _ _ _ h; simp only [propagate] at h; cases h
+    have h0 : IdemOne 0 := by intro bnd marks gs1 S st name st' _ _ _ h; simp only [propagate] at h; cases h
     exact ⟨h0, idemMany_of_idemOne 0 h0⟩
   | succ n ih =>
     have h1 := idemOne_succ n ih.2
     exact ⟨h1, idemMany_of_idemOne (n + 1) h1⟩
 
 theorem propagateLoop_idem (marks : List String) (incl : String → Bool) (gs1 : GlyphSet) (S : String → Prop)
-    (hS : Settled marks gs1 S) (hn : Named gs1)
+    (hS : Settled bnd marks gs1 S) (hn : Named gs1)
     (hvis : ∀ n g, gs1.get? n = some g → incl n = true → g.comps ≠ [] → S n) :
-    ∀ (order : List String) (st st' : FState), filterLoop (propagateStep marks) incl order st = .ok st' →
+    ∀ (order : List String) (st st' : FState), filterLoop (propagateStep bnd marks) incl order st = .ok st' →
       st.gs = gs1 → st'.gs = gs1 ∧ st'.modified = st.modified := by
   intro order
   induction order with
@@ -1423,7 +1523,7 @@ theorem propagateLoop_idem (marks : List String) (incl : String → Bool) (gs1 :
         dsimp only at h
         by_cases hi : incl n = true
         · rw [if_pos hi] at h
-          cases hs : propagateStep marks st g with
+          cases hs : propagateStep bnd marks st g with
           | error e => rw [hs] at h; cases h
           | ok res =>
             obtain ⟨st1, r⟩ := res
@@ -1438,13 +1538,13 @@ theorem propagateLoop_idem (marks : List String) (incl : String → Bool) (gs1 :
                 have := Prod.mk.inj (Except.ok.inj hs)
                 rw [← this.1, ← this.2]; exact ⟨hgs, rfl, rfl⟩
               · rw [if_neg he] at hs
-                cases hp : propagate (st.gs.length + 1) marks st g.name with
+                cases hp : propagate (st.gs.length + 1) bnd marks st g.name with
                 | error e => rw [hp] at hs; cases hs
                 | ok st2 =>
                   rw [hp] at hs
                   have := Prod.mk.inj (Except.ok.inj hs)
                   have hSn : S g.name := by rw [hname]; exact hvis n g hget1 hi (by simpa using he)
-                  obtain ⟨j1, j2⟩ := (propagate_idem _).1 marks gs1 S st g.name st2 hS hSn hgs hp
+                  obtain ⟨j1, j2⟩ := (propagate_idem _).1 bnd marks gs1 S st g.name st2 hS hSn hgs hp
                   rw [← this.1, ← this.2]
                   refine ⟨j1, j2, ?_⟩
                   rw [j1, hname, hget1]
@@ -1459,18 +1559,18 @@ theorem propagateLoop_idem (marks : List String) (incl : String → Bool) (gs1 :
 /-- **idempotence**: a second run of the filter (same marks, same include predicate) on the result of a first run
     changes no glyph and reports no glyph as modified. -/
 theorem propagate_idempotent (marks : List String) (incl : String → Bool) (gs : GlyphSet) (rank : String → Nat)
-    (st st2 : FState) (hr : Ranked gs rank) (hn : Named gs) (h : runFilter (propagateStep marks) incl gs = .ok st)
-    (h2 : runFilter (propagateStep marks) incl st.gs = .ok st2) : st2.gs = st.gs ∧ st2.modified = [] := by
+    (st st2 : FState) (hr : Ranked gs rank) (hn : Named gs) (h : runFilter (propagateStep bnd marks) incl gs = .ok st)
+    (h2 : runFilter (propagateStep bnd marks) incl st.gs = .ok st2) : st2.gs = st.gs ∧ st2.modified = [] := by
   obtain ⟨hi, _, hvis⟩ := runFilter_propagate_inv marks incl gs rank st hr hn h
   have hnamed : Named st.gs := by
     intro n g hg
     obtain ⟨g0, hg0, hcur⟩ := hi.cur n g hg
     rcases hcur with e | ⟨_, e⟩
     · rw [e]; exact hn n g0 hg0
-    · rw [e, (finalGlyph_fields marks st.gs n g0).1]; exact hn n g0 hg0
-  have hS : Settled marks st.gs (fun n => n ∈ st.processed) := by
+    · rw [e, (finalGlyph_fields bnd marks st.gs n g0).1]; exact hn n g0 hg0
+  have hS : Settled bnd marks st.gs (fun n => n ∈ st.processed) := by
     intro n hproc g hg hs
-    obtain ⟨g0, hg0, hfin, hcl⟩ := hi.done n hproc (fun h => h)
+    obtain ⟨g0, hg0, hfin, hcl, _⟩ := hi.done n hproc (fun h => h)
     rw [hg] at hfin
     have e := Option.some.inj hfin
     have hs0 : skipCond marks n g0 = false := by
@@ -1479,14 +1579,14 @@ theorem propagate_idempotent (marks : List String) (incl : String → Bool) (gs 
       | true =>
         unfold finalGlyph at e; rw [if_pos h0] at e
         rw [e, h0] at hs; cases hs
-    rw [finalGlyph_eq marks st.gs n g0 hs0] at e
+    rw [finalGlyph_eq bnd marks st.gs n g0 hs0] at e
     have hcomps : g.comps = g0.comps := by rw [e]
     constructor
     · intro k hk hne
       rw [hcomps] at hk
       exact (hcl hs0 k hk hne).1
     · rw [hcomps]
-      apply toAddOf_idem g0 g _ (splitComps_covered st.gs g0.comps _ covered_empty)
+      apply toAddOf_idem g0 g _ (promoteD_covered n _ (splitComps_covered st.gs g0.comps _ covered_empty))
       rw [e]
   have hvis' : ∀ n g, st.gs.get? n = some g → incl n = true → g.comps ≠ [] → n ∈ st.processed := by
     intro n g hg hincl hc
@@ -1494,7 +1594,7 @@ theorem propagate_idempotent (marks : List String) (incl : String → Bool) (gs 
     have hcomps : g.comps = g0.comps := by
       rcases hcur with e | ⟨_, e⟩
       · rw [e]
-      · rw [e, (finalGlyph_fields marks st.gs n g0).2.1]
+      · rw [e, (finalGlyph_fields bnd marks st.gs n g0).2.1]
     exact hvis n g0 hg0 hincl (by rw [← hcomps]; exact hc)
   unfold runFilter at h2
   cases ho : orderedGlyphs st.gs with
@@ -1502,5 +1602,485 @@ theorem propagate_idempotent (marks : List String) (incl : String → Bool) (gs 
   | ok order =>
     rw [ho] at h2
     exact propagateLoop_idem marks incl st.gs _ hS hnamed hvis' order ⟨st.gs, [], []⟩ st2 h2 rfl
+
+
+/-- Python's `min`: the result is the FIRST element with the minimal key -/
+theorem firstMin_spec : ∀ (keys : List Q) (i : Nat) (m : Q), firstMin keys = some (i, m) →
+    keys[i]? = some m ∧ (∀ (j : Nat) d, keys[j]? = some d → m ≤ d) ∧ (∀ (j : Nat) d, j < i → keys[j]? = some d → m < d) := by
+  intro keys
+  induction keys with
+  | nil => intro i m h; simp only [firstMin] at h; cases h
+  | cons d ds ih =>
+    intro i m h
+    unfold firstMin at h
+    cases hr : firstMin ds with
+    | none =>
+      rw [hr] at h
+      have e := Option.some.inj h
+      obtain ⟨e1, e2⟩ := Prod.mk.inj e
+      subst e1; subst e2
+      have hds : ds = [] := by
+        cases ds with
+        | nil => rfl
+        | cons x xs =>
+          unfold firstMin at hr
+          cases h2 : firstMin xs with
+          | none => rw [h2] at hr; cases hr
+          | some im => rw [h2] at hr; dsimp only at hr; split at hr <;> cases hr
+      subst hds
+      refine ⟨rfl, ?_, ?_⟩
+      · intro j d' hj
+        cases j with
+        | zero => simp only [getElem?_cons_zero] at hj; rw [← Option.some.inj hj]; exact Rat.le_refl
+        | succ j => simp at hj
+      · intro j d' hj; omega
+    | some im =>
+      obtain ⟨i0, m0⟩ := im
+      rw [hr] at h
+      dsimp only at h
+      obtain ⟨a1, a2, a3⟩ := ih i0 m0 hr
+      by_cases hlt : m0 < d
+      · rw [if_pos hlt] at h
+        have e := Option.some.inj h
+        obtain ⟨e1, e2⟩ := Prod.mk.inj e
+        subst e1; subst e2
+        refine ⟨by simpa using a1, ?_, ?_⟩
+        · intro j d' hj
+          cases j with
+          | zero => simp only [getElem?_cons_zero] at hj; rw [← Option.some.inj hj]; exact Rat.le_of_lt hlt
+          | succ j => exact a2 j d' (by simpa using hj)
+        · intro j d' hji hj
+          cases j with
+          | zero => simp only [getElem?_cons_zero] at hj; rw [← Option.some.inj hj]; exact hlt
+          | succ j => exact a3 j d' (by omega) (by simpa using hj)
+      · rw [if_neg hlt] at h
+        have e := Option.some.inj h
+        obtain ⟨e1, e2⟩ := Prod.mk.inj e
+        subst e1; subst e2
+        have hle : d ≤ m0 := Rat.not_lt.mp hlt
+        refine ⟨rfl, ?_, ?_⟩
+        · intro j d' hj
+          cases j with
+          | zero => simp only [getElem?_cons_zero] at hj; rw [← Option.some.inj hj]; exact Rat.le_refl
+          | succ j => exact Rat.le_trans hle (a2 j d' (by simpa using hj))
+        · intro j d' hj; omega
+
+theorem firstMin_isSome : ∀ (keys : List Q), keys ≠ [] → ∃ r, firstMin keys = some r := by
+  intro keys h
+  cases keys with
+  | nil => exact absurd rfl h
+  | cons d ds =>
+    unfold firstMin
+    cases firstMin ds with
+    | none => exact ⟨_, rfl⟩
+    | some im => dsimp only; split <;> exact ⟨_, rfl⟩
+
+theorem distKeys_spec : ∀ (ms : List (Comp × Glyph)) (keys : List Q), distKeys bnd ms = some keys →
+    keys.length = ms.length ∧
+    ∀ (j : Nat) k b, ms[j]? = some (k, b) → ∃ p, bnd k = some p ∧ keys[j]? = some (dist2 p) := by
+  intro ms
+  induction ms with
+  | nil =>
+    intro keys h
+    simp only [distKeys] at h
+    rw [← Option.some.inj h]
+    exact ⟨rfl, fun j k b hj => by simp at hj⟩
+  | cons kb ms ih =>
+    intro keys h
+    obtain ⟨k0, b0⟩ := kb
+    unfold distKeys at h
+    cases hb : bnd k0 with
+    | none => rw [hb] at h; cases h
+    | some p =>
+      cases hr : distKeys bnd ms with
+      | none => rw [hb, hr] at h; cases h
+      | some r =>
+        rw [hb, hr] at h
+        dsimp only at h
+        rw [← Option.some.inj h]
+        obtain ⟨i1, i2⟩ := ih r hr
+        refine ⟨by simp [i1], ?_⟩
+        intro j k b hj
+        cases j with
+        | zero =>
+          simp only [getElem?_cons_zero] at hj
+          obtain ⟨e1, _⟩ := Prod.mk.inj (Option.some.inj hj)
+          subst e1
+          exact ⟨p, hb, rfl⟩
+        | succ j =>
+          obtain ⟨p', h1, h2⟩ := i2 j k b (by simpa using hj)
+          exact ⟨p', h1, by simpa using h2⟩
+
+theorem distKeys_none : ∀ (ms : List (Comp × Glyph)), distKeys bnd ms = none ↔ ∃ kb ∈ ms, bnd kb.1 = none := by
+  intro ms
+  induction ms with
+  | nil => simp [distKeys]
+  | cons kb ms ih =>
+    obtain ⟨k0, b0⟩ := kb
+    unfold distKeys
+    cases hb : bnd k0 with
+    | none => simp [hb]
+    | some p =>
+      cases hr : distKeys bnd ms with
+      | none =>
+        simp only [true_iff]
+        obtain ⟨kb, hkb, h⟩ := ih.mp hr
+        exact ⟨kb, mem_cons_of_mem _ hkb, h⟩
+      | some r =>
+        simp only [reduceCtorEq, false_iff]
+        rintro ⟨kb, hkb, h⟩
+        rcases mem_cons.mp hkb with e | hkb
+        · rw [e] at h; rw [hb] at h; cases h
+        · have := ih.mpr ⟨kb, hkb, h⟩
+          rw [hr] at this; cases this
+
+/-- the condition of the promotion branch -/
+def PromoCond (name : String) (sp0 : PSplit) : Prop :=
+  sp0.markComps ≠ [] ∧ sp0.baseComps = [] ∧ isLigatureMark name = true
+
+theorem promoCond_iff (name : String) (sp0 : PSplit) :
+    (!sp0.markComps.isEmpty && sp0.baseComps.isEmpty && isLigatureMark name) = true ↔ PromoCond name sp0 := by
+  unfold PromoCond
+  simp only [Bool.and_eq_true, Bool.not_eq_true', List.isEmpty_iff, ne_eq]
+  constructor
+  · rintro ⟨⟨h1, h2⟩, h3⟩
+    refine ⟨?_, h2, h3⟩
+    intro e; rw [e] at h1; cases h1
+  · rintro ⟨h1, h2, h3⟩
+    refine ⟨⟨?_, h2⟩, h3⟩
+    cases h : sp0.markComps with
+    | nil => exact absurd h h1
+    | cons a l => rfl
+
+/-- outside the branch nothing happens -/
+theorem promoteSplit_unchanged (name : String) (sp0 : PSplit) (h : ¬ PromoCond name sp0) :
+    promoteSplit bnd name sp0 = .ok sp0 := by
+  unfold promoteSplit
+  rw [if_neg (fun hc => h ((promoCond_iff name sp0).mp hc))]
+
+/-- **the promotion**: in the branch, a successful step moves exactly ONE mark component to the (empty) base list — the
+    FIRST one, in component order, whose bounds' lower-left corner has minimal squared distance to the origin; all other
+    components stay mark components, in order; the collected names become those of the promoted base. -/
+theorem promoteSplit_promotes (name : String) (sp0 sp : PSplit) (hc : PromoCond name sp0)
+    (h : promoteSplit bnd name sp0 = .ok sp) :
+    ∃ i k b p, sp0.markComps[i]? = some (k, b) ∧ bnd k = some p ∧
+      sp.baseComps = [(k, b)] ∧ sp.markComps = sp0.markComps.eraseIdx i ∧
+      sp.markComps.length + 1 = sp0.markComps.length ∧
+      sp.names = b.anchors.foldl (fun l a => addMod l a.name) sp0.names ∧
+      ∀ (j : Nat) k' b', sp0.markComps[j]? = some (k', b') →
+        ∃ p', bnd k' = some p' ∧ dist2 p ≤ dist2 p' ∧ (j < i → dist2 p < dist2 p') := by
+  unfold promoteSplit at h
+  rw [if_pos ((promoCond_iff name sp0).mpr hc)] at h
+  cases hk : distKeys bnd sp0.markComps with
+  | none => rw [hk] at h; cases h
+  | some keys =>
+    rw [hk] at h
+    dsimp only at h
+    obtain ⟨hlen, hkeys⟩ := distKeys_spec sp0.markComps keys hk
+    cases hf : firstMin keys with
+    | none => rw [hf] at h; cases h
+    | some im =>
+      obtain ⟨i, m⟩ := im
+      rw [hf] at h
+      dsimp only at h
+      obtain ⟨f1, f2, f3⟩ := firstMin_spec keys i m hf
+      cases hg : sp0.markComps[i]? with
+      | none => rw [hg] at h; cases h
+      | some kb =>
+        obtain ⟨k, b⟩ := kb
+        rw [hg] at h
+        dsimp only at h
+        have e := (Except.ok.inj h).symm
+        obtain ⟨p, hp, hkp⟩ := hkeys i k b hg
+        rw [f1] at hkp
+        have hm : m = dist2 p := Option.some.inj hkp
+        have hi : i < sp0.markComps.length := (List.getElem?_eq_some_iff.mp hg).1
+        refine ⟨i, k, b, p, hg, hp, by rw [e, hc.2.1]; rfl, by rw [e], ?_, by rw [e], ?_⟩
+        · rw [e]; dsimp only; rw [List.length_eraseIdx_of_lt hi]; omega
+        · intro j k' b' hj
+          obtain ⟨p', hp', hkp'⟩ := hkeys j k' b' hj
+          exact ⟨p', hp', hm ▸ f2 j _ hkp', fun hji => hm ▸ f3 j _ hji hkp'⟩
+
+/-- in the branch the step raises (`Exception`) exactly when some mark component has no bounds -/
+theorem promoteSplit_raises (name : String) (sp0 : PSplit) (hc : PromoCond name sp0) :
+    (∃ kb ∈ sp0.markComps, bnd kb.1 = none) ↔ promoteSplit bnd name sp0 = .error .exception := by
+  unfold promoteSplit
+  rw [if_pos ((promoCond_iff name sp0).mpr hc)]
+  cases hk : distKeys bnd sp0.markComps with
+  | none => simp only [iff_true]; exact (distKeys_none _).mp hk
+  | some keys =>
+    dsimp only
+    have hno : ¬ ∃ kb ∈ sp0.markComps, bnd kb.1 = none := by
+      intro hex; have := (distKeys_none _).mpr hex; rw [hk] at this; cases this
+    obtain ⟨hlen, hkeys⟩ := distKeys_spec sp0.markComps keys hk
+    have hne : keys ≠ [] := by
+      intro e; rw [e] at hlen
+      exact hc.1 (List.length_eq_zero_iff.mp hlen.symm)
+    obtain ⟨⟨i, m⟩, hf⟩ := firstMin_isSome keys hne
+    rw [hf]
+    dsimp only
+    obtain ⟨f1, _, _⟩ := firstMin_spec keys i m hf
+    have hi : i < sp0.markComps.length := by rw [← hlen]; exact (List.getElem?_eq_some_iff.mp f1).1
+    rw [List.getElem?_eq_getElem hi]
+    simp only [hno, false_iff]
+    intro h; cases h
+
+
+/-! ### the promotion branch at run level -/
+
+theorem splitStep_marks_mono (sp : PSplit) (k : Comp) (b : Glyph) :
+    ∀ kb ∈ sp.markComps, kb ∈ (splitStep sp k b).markComps := by
+  intro kb h
+  unfold splitStep
+  split
+  · exact mem_append_left _ h
+  · exact h
+
+theorem splitComps_marks_mono (gs : GlyphSet) : ∀ (ks : List Comp) (sp : PSplit),
+    ∀ kb ∈ sp.markComps, kb ∈ (splitComps gs ks sp).markComps := by
+  intro ks
+  induction ks with
+  | nil => intro sp kb h; exact h
+  | cons k ks ih =>
+    intro sp kb h
+    unfold splitComps
+    cases gs.get? k.base with
+    | none => exact ih sp kb h
+    | some b => exact ih _ kb (splitStep_marks_mono sp k b kb h)
+
+/-- a component whose base record has a `_` anchor is recorded as a mark component -/
+theorem splitComps_mark (gs : GlyphSet) : ∀ (ks : List Comp) (sp : PSplit) (k : Comp) (b : Glyph),
+    k ∈ ks → gs.get? k.base = some b → (b.anchors.any fun a => a.name.startsWith "_") = true →
+      (k, b) ∈ (splitComps gs ks sp).markComps := by
+  intro ks
+  induction ks with
+  | nil => intro sp k b h; cases h
+  | cons k0 ks ih =>
+    intro sp k b hk hb hm
+    by_cases e : k = k0
+    · subst e
+      unfold splitComps
+      rw [hb]
+      dsimp only
+      apply splitComps_marks_mono
+      unfold splitStep; rw [if_pos hm]; simp
+    · have hk' : k ∈ ks := by
+        rcases mem_cons.mp hk with h | h
+        · exact absurd h e
+        · exact h
+      unfold splitComps
+      cases gs.get? k0.base with
+      | none => exact ih sp k b hk' hb hm
+      | some b0 => exact ih _ k b hk' hb hm
+
+/-- components whose bases are all marks leave the base list as it was -/
+theorem splitComps_allmarks (gs : GlyphSet) : ∀ (ks : List Comp) (sp : PSplit),
+    (∀ k ∈ ks, ∀ b, gs.get? k.base = some b → (b.anchors.any fun a => a.name.startsWith "_") = true) →
+      (splitComps gs ks sp).baseComps = sp.baseComps := by
+  intro ks
+  induction ks with
+  | nil => intro sp _; rfl
+  | cons k ks ih =>
+    intro sp h
+    unfold splitComps
+    cases hb : gs.get? k.base with
+    | none => exact ih sp (fun k' hk' => h k' (mem_cons_of_mem _ hk'))
+    | some b =>
+      dsimp only
+      rw [ih _ (fun k' hk' => h k' (mem_cons_of_mem _ hk'))]
+      unfold splitStep
+      rw [if_pos (h k mem_cons_self b hb)]
+
+theorem adjustAnchors_keys (K : String → Prop) (k : Comp) (b : Glyph) (d : AnchorData) (hd : ∀ e ∈ d, K e.1) :
+    ∀ e ∈ adjustAnchors d k b, K e.1 := by
+  unfold adjustAnchors
+  generalize b.anchors.any = anyb
+  have key : ∀ (l : List Anchor) (d : AnchorData), (∀ e ∈ d, K e.1) → ∀ e ∈ l.foldl (fun d a =>
+        if (d.any (fun e => e.1 == a.name) && anyb (fun a' => a'.name == "_" ++ a.name)) = true
+        then adSet d a.name (k.t.apply (a.x, a.y)) else d) d, K e.1 := by
+    intro l
+    induction l with
+    | nil => intro d hd; exact hd
+    | cons a l ih =>
+      intro d hd
+      rw [foldl_cons]
+      apply ih
+      by_cases hc : (d.any (fun e => e.1 == a.name) && anyb (fun a' => a'.name == "_" ++ a.name)) = true
+      · rw [if_pos hc]
+        rw [Bool.and_eq_true] at hc
+        obtain ⟨e0, he0, hk0⟩ := List.any_eq_true.mp hc.1
+        have hk0' : e0.1 = a.name := by simpa using hk0
+        exact adSet_forall (fun e => K e.1) d _ _ hd (hk0' ▸ hd e0 he0)
+      · rw [if_neg hc]; exact hd
+  exact key b.anchors d hd
+
+/-- every key of `to_add` is `an` or `an_N` for a collected name `an` -/
+theorem toAddOf_keys (g : Glyph) (sp : PSplit) : ∀ e ∈ toAddOf g sp, ∃ an ∈ sp.names, KeyOf e.1 an := by
+  unfold toAddOf
+  have h1 : ∀ (l : List String) (d : AnchorData), (∀ an ∈ l, an ∈ sp.names) → (∀ e ∈ d, ∃ an ∈ sp.names, KeyOf e.1 an) →
+      ∀ e ∈ namesFold g sp.baseComps l d, ∃ an ∈ sp.names, KeyOf e.1 an := by
+    intro l
+    induction l with
+    | nil => intro d _ hd; exact hd
+    | cons an l ih =>
+      intro d hl hd
+      unfold namesFold
+      rw [foldl_cons]
+      by_cases hs : (g.anchors.any fun a => a.name.startsWith an) = true
+      · rw [if_pos hs]; exact ih d (fun x hx => hl x (mem_cons_of_mem _ hx)) hd
+      · rw [if_neg hs]
+        apply ih _ (fun x hx => hl x (mem_cons_of_mem _ hx))
+        apply getAnchorData_forall (fun e => ∃ an ∈ sp.names, KeyOf e.1 an) d sp.baseComps an hd
+        intro k b a _ _ _ key hkey
+        exact ⟨an, hl an mem_cons_self, hkey⟩
+  have h2 : ∀ (ms : List (Comp × Glyph)) (d : AnchorData), (∀ e ∈ d, ∃ an ∈ sp.names, KeyOf e.1 an) →
+      ∀ e ∈ ms.foldl (fun d (k, b) => adjustAnchors d k b) d, ∃ an ∈ sp.names, KeyOf e.1 an := by
+    intro ms
+    induction ms with
+    | nil => intro d hd; exact hd
+    | cons m ms ih =>
+      intro d hd
+      obtain ⟨k, b⟩ := m
+      rw [foldl_cons]
+      exact ih _ (adjustAnchors_keys (fun key => ∃ an ∈ sp.names, KeyOf key an) k b d hd)
+  apply h2
+  apply h1 _ _ (fun an han => (sortStr_perm sp.names).mem_iff.mp han)
+  intro e he; cases he
+
+/-- **the promotion at run level**: after the filter, an included composite with a ligature name whose existing components
+    are all mark glyphs (and that was not skipped) got the anchors of the component `k` whose bounds' corner is closest to
+    the origin: `k` has bounds, no component with an existing base is closer, every anchor of `k`'s base is there (own, or
+    propagated under its possibly numbered name), and every added anchor bears the name of an anchor of `k`'s base. -/
+theorem propagate_promoted (marks : List String) (incl : String → Bool) (gs : GlyphSet) (rank : String → Nat)
+    (st : FState) (hr : Ranked gs rank) (hn : Named gs) (h : runFilter (propagateStep bnd marks) incl gs = .ok st)
+    (n : String) (g g' : Glyph) (hg : gs.get? n = some g) (hg' : st.gs.get? n = some g')
+    (hincl : incl n = true) (hs : skipCond marks n g = false) (hlig : isLigatureMark n = true)
+    (hex : ∃ k ∈ g.comps, st.gs.get? k.base ≠ none)
+    (hmarks : ∀ k ∈ g.comps, ∀ b, st.gs.get? k.base = some b → (b.anchors.any fun a => a.name.startsWith "_") = true) :
+    ∃ k ∈ g.comps, ∃ b p, st.gs.get? k.base = some b ∧ bnd k = some p ∧
+      (∀ k' ∈ g.comps, ∀ b', st.gs.get? k'.base = some b' → ∃ p', bnd k' = some p' ∧ dist2 p ≤ dist2 p') ∧
+      (∀ ba ∈ b.anchors, (g.anchors.any fun o => o.name.startsWith ba.name) = true ∨
+        ∃ a ∈ g'.anchors, C15.nameMatches a.name ba.name = true) ∧
+      ∃ added, g'.anchors = g.anchors ++ added ∧ ∀ a ∈ added, ∃ ba ∈ b.anchors, C15.nameMatches a.name ba.name = true := by
+  obtain ⟨hi, _, hvis⟩ := runFilter_propagate_inv marks incl gs rank st hr hn h
+  have hc : g.comps ≠ [] := by
+    intro e; unfold skipCond at hs; rw [e] at hs; simp at hs
+  have hproc := hvis n g hg hincl hc
+  obtain ⟨g0, hg0, hfin, _, hok⟩ := hi.done n hproc (fun h => h)
+  rw [hg] at hg0
+  have := Option.some.inj hg0; subst this
+  rw [hg'] at hfin
+  have e := Option.some.inj hfin
+  rw [finalGlyph_eq bnd marks st.gs n g hs] at e
+  obtain ⟨sp, hpm⟩ := hok hs
+  rw [promoteD_of_ok hpm] at e
+  -- the split before the promotion: no base components, the existing components as marks
+  have hb0 : (splitComps st.gs g.comps ⟨[], [], []⟩).baseComps = [] := splitComps_allmarks st.gs g.comps _ hmarks
+  have hm0 : (splitComps st.gs g.comps ⟨[], [], []⟩).markComps ≠ [] := by
+    obtain ⟨k, hk, hne⟩ := hex
+    cases hb : st.gs.get? k.base with
+    | none => exact absurd hb hne
+    | some b =>
+      have := splitComps_mark st.gs g.comps ⟨[], [], []⟩ k b hk hb (hmarks k hk b hb)
+      intro e0; rw [e0] at this; cases this
+  have hn0 : (splitComps st.gs g.comps ⟨[], [], []⟩).names = [] := by
+    cases hnm : (splitComps st.gs g.comps ⟨[], [], []⟩).names with
+    | nil => rfl
+    | cons x xs =>
+      obtain ⟨kb, hkb, _⟩ := splitComps_covered st.gs g.comps _ covered_empty x (by rw [hnm]; exact mem_cons_self)
+      rw [hb0] at hkb; cases hkb
+  obtain ⟨i, k, b, p, hik, hp, hbase, _, _, hnames, hmin⟩ :=
+    promoteSplit_promotes n _ sp ⟨hm0, hb0, hlig⟩ hpm
+  have hkmem : (k, b) ∈ (splitComps st.gs g.comps ⟨[], [], []⟩).baseComps ++ (splitComps st.gs g.comps ⟨[], [], []⟩).markComps :=
+    mem_append_right _ (List.mem_of_getElem? hik)
+  have hk : k ∈ g.comps ∧ st.gs.get? k.base = some b := by
+    rcases splitComps_mem st.gs g.comps _ (k, b) hkmem with h' | h'
+    · simp at h'
+    · exact h'
+  rw [hn0] at hnames
+  refine ⟨k, hk.1, b, p, hk.2, hp, ?_, ?_, ?_⟩
+  · intro k' hk' b' hb'
+    have hmem := splitComps_mark st.gs g.comps ⟨[], [], []⟩ k' b' hk' hb' (hmarks k' hk' b' hb')
+    obtain ⟨j, hj⟩ := List.mem_iff_getElem?.mp hmem
+    obtain ⟨p', h1, h2, _⟩ := hmin j k' b' hj
+    exact ⟨p', h1, h2⟩
+  · intro ba hba
+    by_cases hown : (g.anchors.any fun o => o.name.startsWith ba.name) = true
+    · exact Or.inl hown
+    · right
+      have hin : ba.name ∈ sp.names := by rw [hnames]; exact (mem_foldl_addMod b.anchors []).2.1 ba hba
+      obtain ⟨en, hen, hkey⟩ := toAddOf_complete g sp ba.name k b ba (by rw [hbase]; simp) hba rfl hin (by simpa using hown)
+      refine ⟨⟨en.1, en.2.1, en.2.2⟩, ?_, hkey.nameMatches⟩
+      rw [e]
+      exact mem_append_right _ (mem_newAnchors.mpr ⟨en, hen, rfl⟩)
+  · refine ⟨newAnchors g sp, by rw [e], ?_⟩
+    intro a ha
+    obtain ⟨en, hen, rfl⟩ := mem_newAnchors.mp ha
+    obtain ⟨an, han, hkey⟩ := toAddOf_keys g sp en hen
+    rw [hnames] at han
+    rcases (mem_foldl_addMod b.anchors []).2.2 an han with h' | ⟨ba, hba, e'⟩
+    · cases h'
+    · exact ⟨ba, hba, by rw [e']; exact hkey.nameMatches⟩
+
+theorem minQ_spec : ∀ (l : List Q) (m : Q), minQ m l ≤ m ∧ (∀ x ∈ l, minQ m l ≤ x) ∧ (minQ m l = m ∨ minQ m l ∈ l) := by
+  intro l
+  induction l with
+  | nil =>
+    intro m
+    refine ⟨Rat.le_refl, ?_, Or.inl rfl⟩
+    intro x hx; cases hx
+  | cons x xs ih =>
+    intro m
+    unfold minQ
+    by_cases h : x < m
+    · rw [if_pos h]
+      obtain ⟨a, b, c⟩ := ih x
+      refine ⟨Rat.le_trans a (Rat.le_of_lt h), ?_, ?_⟩
+      · intro y hy
+        rcases mem_cons.mp hy with e | hy
+        · rw [e]; exact a
+        · exact b y hy
+      · rcases c with c | c
+        · right; rw [c]; exact mem_cons_self
+        · right; exact mem_cons_of_mem _ c
+    · rw [if_neg h]
+      obtain ⟨a, b, c⟩ := ih m
+      refine ⟨a, ?_, ?_⟩
+      · intro y hy
+        rcases mem_cons.mp hy with e | hy
+        · rw [e]; exact Rat.le_trans a (Rat.not_lt.mp h)
+        · exact b y hy
+      · rcases c with c | c
+        · exact Or.inl c
+        · right; exact mem_cons_of_mem _ c
+
+/-- `lowerLeft` is the lower-left corner of the bounding box of the points: below/left of every point, and both
+    coordinates are attained -/
+theorem lowerLeft_spec (pts : List (Q × Q)) (c : Q × Q) (h : lowerLeft pts = some c) :
+    (∀ p ∈ pts, c.1 ≤ p.1 ∧ c.2 ≤ p.2) ∧ (∃ p ∈ pts, p.1 = c.1) ∧ (∃ p ∈ pts, p.2 = c.2) := by
+  cases pts with
+  | nil => simp only [lowerLeft] at h; cases h
+  | cons p ps =>
+    simp only [lowerLeft] at h
+    have e := (Option.some.inj h).symm
+    obtain ⟨a1, b1, c1⟩ := minQ_spec (ps.map (·.1)) p.1
+    obtain ⟨a2, b2, c2⟩ := minQ_spec (ps.map (·.2)) p.2
+    rw [e]
+    refine ⟨?_, ?_, ?_⟩
+    · intro q hq
+      rcases mem_cons.mp hq with e' | hq
+      · rw [e']; exact ⟨a1, a2⟩
+      · exact ⟨b1 _ (mem_map_of_mem (f := (·.1)) hq), b2 _ (mem_map_of_mem (f := (·.2)) hq)⟩
+    · rcases c1 with c1 | c1
+      · exact ⟨p, mem_cons_self, c1.symm⟩
+      · obtain ⟨q, hq, e'⟩ := mem_map.mp c1
+        exact ⟨q, mem_cons_of_mem _ hq, e'⟩
+    · rcases c2 with c2 | c2
+      · exact ⟨p, mem_cons_self, c2.symm⟩
+      · obtain ⟨q, hq, e'⟩ := mem_map.mp c2
+        exact ⟨q, mem_cons_of_mem _ hq, e'⟩
+
+theorem lowerLeft_none (pts : List (Q × Q)) : lowerLeft pts = none ↔ pts = [] := by
+  cases pts <;> simp [lowerLeft]
 
 end Ufo2ft
